@@ -145,6 +145,7 @@ def parts(tier):
         Part("term", "hyp", strategy=gen_term(), n=200000 if big else 10000),
         Part("rate", "hyp", strategy=gen_rate(), n=100000 if big else 5000),
         Part("universe", "hyp", strategy=universe.gen_linear_case(n_max=4, max_steps=16 if big else 9), n=200000 if big else 5000, chunk=1500),
+        Part("refless", "hyp", strategy=universe.gen_refless_case(), n=60000 if big else 3000, chunk=1500),
     ]
 
 
@@ -199,6 +200,28 @@ def run_case(case, ctx):
                              f"{fs(refs[j])} [{mus[i].how},{mus[j].how}]")
                 if a.unit is not b.unit and mus[i].factor == mus[j].factor:
                     _check_pair(ctx, "unit/same-scale", a.unit, b.unit, True)
+        return
+    if k == "u_refless":
+        built = universe.build_refless_case(case, ctx)
+        if built is None:
+            return
+        m, b, uids = built
+        amt = mknum(case["amt"])
+        for i in range(len(uids)):
+            for j in range(i + 1, len(uids)):
+                mu, mv = m.units[uids[i]], m.units[uids[j]]
+                U, V = b.units[uids[i]], b.units[uids[j]]
+                ctx.tick()
+                if mu.factor == mv.factor:
+                    ctx.label("refless/same_factor")
+                if mu.bmap != mv.bmap:
+                    ctx.label("refless/other_base")
+                # whatever == answers for units / quantities that are not convertible: equal => same hash
+                _check_pair(ctx, "unit/refless", U, V, True)
+                _check_pair(ctx, "quantity/refless", Quantity(amt, U), Quantity(amt, V), True)
+                if mu.bmap == mv.bmap and mv.factor != 0:
+                    _check_pair(ctx, "quantity/refless-scaled", Quantity(amt, U),
+                                Quantity(F(amt) * mu.factor / mv.factor, V), True)
         return
     if k == "qty":
         a = Quantity(mknum(case["a"]["amt"]), cat.unit(case["a"]["u"]))
